@@ -66,6 +66,16 @@ def gen(rng):
         tdmount = rng.choice(cands_ or [home + '/.local/share/Trash'])
         steps.append(['d', tdmount, 0o700])
         L['mounts'].append(tdmount)
+    ht_ = G.home_trash_of(env)
+    if ht_ and tdmount is None and rng.random() < 0.05 and not any(s_[1] == ht_ or s_[1].startswith(ht_ + '/') for s_ in steps):
+        # the home trash directory is itself a symlink to a directory (Trash moved to a bigger disk, a link left behind): the
+        # directory it leads to is the trash directory - used for the files of the volume THAT directory is on
+        real_ = rng.choice([home + '/realtrash'] + [v_ + '/realtrash' for v_ in L['vols']])
+        steps.append(['d', real_, 0o700])
+        if rng.random() < 0.5:
+            steps.append(['d', real_ + '/files', 0o700])
+            steps.append(['d', real_ + '/info', 0o700])
+        steps.append(['l', ht_, real_])
     place = rng.choice(['home', 'home', 'vol', 'vol', 'nested', 'via_link', 'link_parent', 'root_tmp', 'link_arg_slash'])
     if place in ('vol', 'via_link', 'link_arg_slash') and not L['vols']:
         place = 'home'
